@@ -40,7 +40,7 @@ def setup() -> None:
 
 
 def budget(tier: str) -> int:
-    return 2000 if tier == "quick" else 12000
+    return 2000 if tier == "quick" else 3000
 
 
 # ---------------------------------------------------------------------------
